@@ -3,20 +3,24 @@ import Starcal.SrcTie.Jalali
 import Starcal.SrcTie.Ethiopian
 import Starcal.SrcTie.Proleptic
 import Starcal.SrcTie.Indian
+import Starcal.SrcTie.Hijri
 /-! Source tie, all translated calendar packages: each package of cal_types, as translated from today's
     source, is the model configuration the calendar theorems (C01, C02, C03, C07, C20) are about. -/
 namespace Starcal.SrcTie
 open Starcal Starcal.Gen.Src
 
-/-- six of the nine calendar configurations are tied to the source by translation
-    (gregorian is Go's `time` package; hijri uses float arithmetic and a table: both by correspondence only) -/
+/-- seven of the nine calendar configurations are tied to the source by translation (gregorian is Go's `time`
+    package and hijri's month-table mode walks a table loaded from JSON: both by correspondence only; hijri's
+    arithmetic mode with float64 arithmetic rendered as exact rational arithmetic) -/
 theorem all_translate :
     Translates Drv.calJul julian_ToJd julian_JdTo julian_IsLeap julian_GetMonthLen ∧
     Translates Drv.calJal33 (jalali_ToJd false) (jalali_JdTo false) (jalali_IsLeap false) (jalali_GetMonthLen false) ∧
     Translates Drv.calJal2820 (jalali_ToJd true) (jalali_JdTo true) (jalali_IsLeap true) (jalali_GetMonthLen true) ∧
     Translates Drv.calEth ethiopian_ToJd ethiopian_JdTo ethiopian_IsLeap ethiopian_GetMonthLen ∧
     Translates Drv.calGprol gprol_ToJd gprol_JdTo gprol_IsLeap gprol_GetMonthLen ∧
-    Translates Drv.calInd indian_ToJd indian_JdTo indian_IsLeap indian_GetMonthLen :=
-  ⟨julian_translates, jalali33_translates, jalali2820_translates, ethiopian_translates, gprol_translates, indian_translates⟩
+    Translates Drv.calInd indian_ToJd indian_JdTo indian_IsLeap indian_GetMonthLen ∧
+    Translates Drv.calHijA hijri_ToJd hijri_JdTo hijri_IsLeap hijri_GetMonthLen :=
+  ⟨julian_translates, jalali33_translates, jalali2820_translates, ethiopian_translates, gprol_translates, indian_translates,
+    hijri_translates⟩
 
 end Starcal.SrcTie
